@@ -1006,66 +1006,104 @@ func ruleC17Bound(cx *Ctx) {
 
 func ruleC17Delivered(cx *Ctx) {
 	const rule = "C17.delivered"
-	cx.R.Rule(rule, 2, "drainReadBuffer drains the read buffer on every path on which skipReadBuffer answered false, whatever the configuration, and the consumer is cache.onAccess (or the eviction policy's access handler where expiration is known to be off): every successfully recorded read is delivered when maintenance runs")
-	fn := cx.need(rule, "", "cache", "drainReadBuffer")
+	cx.R.Rule(rule, 2, "where maintenance drains the read buffer it does so on every path on which skipReadBuffer answered false, whatever the configuration, and the consumer is cache.onAccess (or the eviction policy's access handler where expiration is known to be off): every successfully recorded read is delivered when maintenance runs")
 	skip := cx.need(rule, "", "cache", "skipReadBuffer")
 	drain := cx.need(rule, lossyPkg, "Striped", "DrainTo")
 	onAcc := cx.need(rule, "", "cache", "onAccess")
-	if fn == nil || skip == nil || drain == nil || onAcc == nil {
+	if skip == nil || drain == nil || onAcc == nil {
 		return
 	}
 	rb := cx.P.Field("", "cache", "readBuffer")
-	isDrain := func(in ssa.Instruction) bool {
-		return isCallTo(in, drain) && (rb == nil || sameField(recvField(in), rb))
-	}
 	polAcc := cx.P.Func("", "policy", "access")
-	n := 0
-	allInstrs(fn, func(in ssa.Instruction) {
-		if !isDrain(in) {
-			return
+	// a delivering drain: DrainTo on the cache's read buffer with a consumer that does something (InvalidateAll discards
+	// the recorded reads of entries it removes with an empty consumer)
+	isDrain := func(in ssa.Instruction) bool {
+		if !isCallTo(in, drain) || (rb != nil && !sameField(recvField(in), rb)) {
+			return false
 		}
-		n++
 		a := callArgs(in)
-		cons := a[len(a)-1]
-		ok := false
-		if mc, isMC := cons.(*ssa.MakeClosure); isMC {
-			if bm := boundMethod(mc); bm != nil {
-				switch {
-				case origin(bm) == origin(onAcc):
-					ok = true
-				case polAcc != nil && origin(bm) == origin(polAcc):
-					for _, g := range guardsAt(in.Block()) {
-						if f := fieldOf(g.Cond); f != nil && fname(f) == "withExpiration" && !g.Truth {
-							ok = true
+		if mc, ok := a[len(a)-1].(*ssa.MakeClosure); ok && boundMethod(mc) == nil {
+			if cl, _ := mc.Fn.(*ssa.Function); cl != nil && len(cl.Blocks) == 1 && len(cl.Blocks[0].Instrs) <= 1 {
+				return false
+			}
+		}
+		if cl, ok := a[len(a)-1].(*ssa.Function); ok && len(cl.Blocks) == 1 && len(cl.Blocks[0].Instrs) <= 1 {
+			return false
+		}
+		return true
+	}
+	n := 0
+	for _, fn := range cx.P.FuncsOfPkg("") {
+		fn := fn
+		has := false
+		allInstrs(fn, func(in ssa.Instruction) {
+			if isDrain(in) {
+				has = true
+			}
+		})
+		if !has {
+			continue
+		}
+		allInstrs(fn, func(in ssa.Instruction) {
+			if !isDrain(in) {
+				return
+			}
+			n++
+			a := callArgs(in)
+			cons := a[len(a)-1]
+			ok := false
+			if mc, isMC := cons.(*ssa.MakeClosure); isMC {
+				if bm := boundMethod(mc); bm != nil {
+					switch {
+					case origin(bm) == origin(onAcc):
+						ok = true
+					case polAcc != nil && origin(bm) == origin(polAcc):
+						for _, g := range guardsAt(in.Block()) {
+							if f := fieldOf(g.Cond); f != nil && fname(f) == "withExpiration" && !g.Truth {
+								ok = true
+							}
 						}
 					}
 				}
 			}
-		}
-		cx.R.Check(ok, rule, funcName(fn), fmt.Sprintf("consumer #%d", n), cx.P.where(in), "the drained reads go to cache.onAccess (policy access + timer reschedule)")
-	})
-	// every path past a negative skipReadBuffer answer drains
-	found := false
-	allInstrs(fn, func(in ssa.Instruction) {
-		if !isCallTo(in, skip) {
-			return
-		}
-		v, _ := in.(ssa.Value)
-		for _, u := range usesOf(v) {
-			iff, isIf := u.(*ssa.If)
-			if !isIf {
-				continue
+			cx.R.Check(ok, rule, funcName(fn), fmt.Sprintf("consumer #%d", n), cx.P.where(in), "the drained reads go to cache.onAccess (policy access + timer reschedule)")
+		})
+		found := false
+		allInstrs(fn, func(in ssa.Instruction) {
+			if !isCallTo(in, skip) {
+				return
 			}
-			found = true
-			notSkipped := iff.Block().Succs[1]
-			ok, wit := MustFollowPt(Pt{notSkipped, 0}, isDrain, exitReturn, nil)
-			cx.R.Check(ok, rule, funcName(fn), "drains whenever the buffer is in use", cx.P.where(in), "every path on which skipReadBuffer is false reaches DrainTo before the function returns", wit...)
+			v, _ := in.(ssa.Value)
+			for _, u := range usesOf(v) {
+				var iff *ssa.If
+				neg := false
+				switch x := u.(type) {
+				case *ssa.If:
+					iff = x
+				case *ssa.UnOp:
+					for _, uu := range usesOf(x) {
+						if y, isIf := uu.(*ssa.If); isIf {
+							iff, neg = y, true
+						}
+					}
+				}
+				if iff == nil {
+					continue
+				}
+				found = true
+				notSkipped := iff.Block().Succs[1]
+				if neg {
+					notSkipped = iff.Block().Succs[0]
+				}
+				// within the region the negative answer leads into, the drain comes first
+				ok, wit := MustFollowPt(Pt{notSkipped, 0}, isDrain, exitReturn, nil)
+				cx.R.Check(ok, rule, funcName(fn), "drains whenever the buffer is in use", cx.P.where(in), "every path on which skipReadBuffer is false reaches DrainTo", wit...)
+			}
+		})
+		if !found {
+			ok, wit := MustFollowPt(Pt{fn.Blocks[0], 0}, isDrain, exitReturn, nil)
+			cx.R.Check(ok, rule, funcName(fn), "drains whenever the buffer is in use", cx.P.Pos(fn.Pos()), "every path of the draining step reaches DrainTo", wit...)
 		}
-	})
-	if !found {
-		// no skip test in place: the drain must be unconditional apart from it
-		ok, wit := MustFollowPt(Pt{fn.Blocks[0], 0}, func(in ssa.Instruction) bool { return isDrain(in) || isCallTo(in, skip) }, exitReturn, nil)
-		cx.R.Check(ok, rule, funcName(fn), "drains whenever the buffer is in use", cx.P.Pos(fn.Pos()), "every path reaches DrainTo (or the skip test) before the function returns", wit...)
 	}
-	cx.R.Check(n >= 1, rule, funcName(fn), "drain found", cx.P.Pos(fn.Pos()), fmt.Sprintf("%d", n))
+	cx.R.Check(n >= 1, rule, "cache", "delivering drain found", "-", fmt.Sprintf("%d", n))
 }
